@@ -66,15 +66,18 @@ def check_name_sanitised(prop: str, res: Result, repo: Repo):
     ind = repo.cls("hexital.core.indicator", "Indicator")
     san = ind.methods.get("_sanitise_name")
     gen = ind.methods.get("_internal_generate_name")
-    if san is None or gen is None:
-        res.errors.append("anchor vanished: Indicator._sanitise_name / _internal_generate_name")
+    if gen is None:
+        res.errors.append("anchor vanished: Indicator._internal_generate_name")
         return
-    rets = [n.value for n in ast.walk(san.node) if isinstance(n, ast.Return) and n.value is not None]
-    good = len(rets) == 1 and isinstance(rets[0], ast.Call) and call_name(rets[0]) == "replace" and [getattr(a, "value", None) for a in rets[0].args] == [".", ","]
-    if good:
-        res.ok(rule, {"site": san.where, "sanitiser": "name.replace('.', ',')"})
-    else:
-        res.fail(rule, finding(prop, rule, san, san.node, "_sanitise_name must replace every '.' of the name by ','", construct="_sanitise_name"))
+    if san is not None:
+        rets = [n.value for n in ast.walk(san.node) if isinstance(n, ast.Return) and n.value is not None]
+        good = len(rets) == 1 and isinstance(rets[0], ast.Call) and call_name(rets[0]) == "replace" and [getattr(a, "value", None) for a in rets[0].args] == [".", ","]
+        if good:
+            res.ok(rule, {"site": san.where, "sanitiser": "name.replace('.', ',')"})
+        else:
+            res.fail(rule, finding(prop, rule, san, san.node, "_sanitise_name must replace every '.' of the name by ','", construct="_sanitise_name"))
+    # without the method the sanitiser has to appear on the paths below as `.replace('.', ',')` itself (a helper outside the pinned
+    # decomposition is inlined at load time)
 
     def clean_expr(e, env) -> bool:
         if isinstance(e, ast.Call) and call_name(e) in ("_sanitise_name",):
@@ -244,16 +247,24 @@ def check_regkey(prop: str, res: Result, repo: Repo):
         for path in stmt_paths(fn.node.body):
             if path and isinstance(path[-1], ast.Raise):
                 continue
-            cur, got = None, None
+            env, got = {}, None  # local name -> its value in terms of the original parameter
+
+            def sub(e):
+                e = copy.deepcopy(e)
+                for k_, v_ in env.items():
+                    e = _Sub(k_, v_).visit(e)
+                return e
+
             for item in path:
                 if isinstance(item, ast.Assign):
-                    v = _Sub(param, cur).visit(copy.deepcopy(item.value))
-                    if any(isinstance(t, ast.Name) and t.id == param for t in item.targets):
-                        cur = v
+                    v = sub(item.value)
+                    for t in item.targets:
+                        if isinstance(t, ast.Name):
+                            env[t.id] = v
                     if sink != "return" and any(ast.unparse(t) == sink for t in item.targets):
                         got = v
                 elif isinstance(item, ast.Return) and sink == "return" and item.value is not None:
-                    got = _Sub(param, cur).visit(copy.deepcopy(item.value))
+                    got = sub(item.value)
             if got is not None and ast.unparse(got) != param:
                 out.add(ast.unparse(got).replace(param, "<tf>"))
         return out
@@ -297,15 +308,26 @@ def check_registry_order(prop: str, res: Result, repo: Repo):
         res.errors.append(f"{vi.where}: _validate_indicators does not return a named registry")
         return
     reg = ret[-1].id
+    regs = {reg}  # the returned registry and the names it is a plain copy of
+    grew = True
+    while grew:
+        grew = False
+        for n in ast.walk(vi.node):
+            if isinstance(n, ast.Assign) and isinstance(n.value, ast.Name) and n.value.id not in regs and any(isinstance(t, ast.Name) and t.id in regs for t in n.targets):
+                regs.add(n.value.id)
+                grew = True
     writers = []
     for n in ast.walk(vi.node):
         if isinstance(n, ast.For):
-            if any(isinstance(st, ast.Assign) and any(isinstance(t, ast.Subscript) and ast.unparse(t.value) == reg for t in st.targets) for st in ast.walk(n)):
+            if any(isinstance(st, ast.Assign) and any(isinstance(t, ast.Subscript) and ast.unparse(t.value) in regs for t in st.targets) for st in ast.walk(n)):
                 writers.append(n)
-        if isinstance(n, ast.Assign) and any(isinstance(t, ast.Name) and t.id == reg for t in n.targets) and isinstance(n.value, (ast.DictComp, ast.Call)) and not (isinstance(n.value, ast.Call) and not n.value.args and not n.value.keywords):
+        if isinstance(n, ast.Assign) and any(isinstance(t, ast.Name) and t.id in regs for t in n.targets) and isinstance(n.value, (ast.DictComp, ast.Call)) and not (isinstance(n.value, ast.Call) and not n.value.args and not n.value.keywords):
             writers.append(n)
     loops = [w for w in writers if isinstance(w, ast.For)]
-    if len(writers) == 1 and len(loops) == 1 and ast.unparse(loops[0].iter) == param:
+    it = loops[0].iter if loops else None
+    if isinstance(it, ast.BoolOp) and isinstance(it.op, ast.Or) and len(it.values) == 2 and isinstance(it.values[1], (ast.List, ast.Tuple)) and not it.values[1].elts:
+        it = it.values[0]  # `given or []`
+    if len(writers) == 1 and len(loops) == 1 and ast.unparse(it) == param:
         res.ok(rule, {"site": vi.where, "why": f"one loop over `{param}` fills the registry: insertion order = given order"}, nontrivial="regorder")
     else:
         res.fail(rule, finding(prop, rule, vi, writers[1] if len(writers) > 1 else vi.node, "the registry is filled by more than one pass over the given indicators (e.g. objects first, dicts later): the calculation order no longer follows the given order, so a chained indicator can be calculated before its input", construct=f"_validate_indicators: {len(writers)} registry writers"))
